@@ -261,13 +261,24 @@ fn case(gen: u8, input: &[u8], family: &str) -> Value {
 pub fn run(ctx: &'static Ctx) {
     ctx.rule("state = (generator, input byte string from an exhaustive family); the generated value must be Err(out of data) or a request whose text fields are valid UTF-8 and within capacity, whose borrowed data lies inside the input, and that can be formatted, cloned, compared and dispatched; non-trivial = a request was generated");
     ctx.assume("the quantifier's seeded random strings are replaced by exhaustive families with the same bias: all periodic inputs, bounded byte deviations from three bases, all short words after each variant-selecting prefix, UTF-8 pattern words repeated across every capacity");
-    // G1: every single-byte-repeated input b^n, n in 0..=4096
-    let nmax: u64 = 4096;
-    sweep(ctx, "G1: b^n for every byte b and every length n <= 4096", 3 * 256 * (nmax + 1), "three generators x 256 byte values x 4097 lengths", move |idx, l| {
-        let gen = (idx / (256 * (nmax + 1))) as u8;
-        let r = idx % (256 * (nmax + 1));
-        let b = (r / (nmax + 1)) as u8;
-        let n = (r % (nmax + 1)) as usize;
+    // G1: every single-byte-repeated input b^n; thorough: every n in 0..=4096; quick: every n up to
+    // 1024 and every 16th length beyond (plus 4096)
+    let lens: Vec<usize> = if ctx.thorough() {
+        (0..=4096).collect()
+    } else {
+        let mut v: Vec<usize> = (0..=1024).collect();
+        v.extend((1025..4096).step_by(16));
+        v.push(4095);
+        v.push(4096);
+        v
+    };
+    let nl = lens.len() as u64;
+    let lr = &lens;
+    sweep(ctx, "G1: b^n for every byte b and every enumerated length n <= 4096", 3 * 256 * nl, "three generators x 256 byte values x lengths (thorough: all 4097; quick: 0..=1024 and every 16th up to 4096)", move |idx, l| {
+        let gen = (idx / (256 * nl)) as u8;
+        let r = idx % (256 * nl);
+        let b = (r / nl) as u8;
+        let n = lr[(r % nl) as usize];
         thread_local! { static BUF: std::cell::RefCell<Vec<u8>> = std::cell::RefCell::new(Vec::with_capacity(4200)); }
         BUF.with(|buf| {
             let mut buf = buf.borrow_mut();
@@ -289,11 +300,11 @@ pub fn run(ctx: &'static Ctx) {
     let bases = [0x00u8, 0xff, 0x80];
     let mut g2: Vec<(u8, usize, Vec<usize>)> = Vec::new(); // (base, len, positions to vary)
     for base in bases {
-        let (full, edge): (&[usize], usize) = if ctx.thorough() { (&[8, 16, 32, 64, 128], 64) } else { (&[8, 16, 32, 64], 24) };
+        let (full, edge): (&[usize], usize) = if ctx.thorough() { (&[8, 16, 32, 64, 128], 64) } else { (&[8, 16, 32], 16) };
         for len in full {
             g2.push((base, *len, (0..*len).collect()));
         }
-        let partial: &[usize] = if ctx.thorough() { &[512, 4096] } else { &[128, 512, 4096] };
+        let partial: &[usize] = if ctx.thorough() { &[512, 4096] } else { &[64, 128, 512, 4096] };
         for len in partial {
             let mut pos: Vec<usize> = (0..edge).collect();
             pos.extend(len - edge..*len);
